@@ -175,6 +175,12 @@ func (i *interpreter) fromNative(rv reflect.Value, t types.Type) value {
 			out[k] = i.fromNative(rv.Index(k), u.Elem())
 		}
 		return out
+	case *types.Array:
+		out := make(array, rv.Len())
+		for k := range out {
+			out[k] = i.fromNative(rv.Index(k), u.Elem())
+		}
+		return out
 	}
 	panic(unmodelled{"native bridge: result type " + t.String()})
 }
